@@ -1,6 +1,7 @@
 mod alloc;
 mod auth;
 mod autoalloc;
+mod stream;
 mod journal;
 mod oracle;
 mod panics;
@@ -242,6 +243,10 @@ fn main() {
         }
         "journal" => {
             let code = journal::main(&args[2..]);
+            std::process::exit(code);
+        }
+        "stream" => {
+            let code = stream::main(&args[2..]);
             std::process::exit(code);
         }
         "autoalloc" => {
